@@ -743,6 +743,10 @@ func init() {
 			ref  []byte
 		}
 		hdr := &blockheader.BlockHeader{Version: t.Version, Time: t.Locktime, NBits: 0x1d00ffff, Nonce: uint32(len(t.Inputs))}
+		// hashes that are not their own reversal (a writer that flips them in place and back must flip them back
+		// when the write fails, too)
+		hdr.PreviousHeaderHash = sha256.Sum256(unhx(a[0]))
+		hdr.MerkleRootHash = sha256.Sum256(hdr.PreviousHeaderHash[:])
 		blk := &blocks.Block{Header: hdr, Transactions: []*tx.Tx{t}}
 		targets := []wt{{"Tx.WriteTo", t, t.Bytes()}, {"BlockHeader.WriteTo", hdr, hdr.Bytes()}, {"Block.WriteTo", blk, blk.Bytes()},
 			{"VarInt.WriteTo", varint.VarInt(len(t.Inputs[0].Script) * 997), varint.VarInt(len(t.Inputs[0].Script) * 997).Bytes()},
@@ -794,6 +798,13 @@ func init() {
 	})
 	regExtra("C02", func(r *Runner) {
 		for i := 0; i < r.N(40, 1500); i++ {
+			t, b := r.genTx(3, 3)
+			r.Do("c02.writeto.partial", []string{hx(t.Bytes())}, "writeto-failing-writer", b, "")
+		}
+	})
+	// C01: the same for the codec property: after a failed write the object still encodes to its bytes
+	regExtra("C01", func(r *Runner) {
+		for i := 0; i < r.N(12, 300); i++ {
 			t, b := r.genTx(3, 3)
 			r.Do("c02.writeto.partial", []string{hx(t.Bytes())}, "writeto-failing-writer", b, "")
 		}
@@ -1337,6 +1348,42 @@ func init() {
 			r.eccVerify(pub, h[:], rr, ss, "ecdsa-valid-short-half", true)
 			r.eccVerify(pub, h[:], r2, s2, "ecdsa-recut-after-honest", false)
 			found++
+		}
+	})
+	// floods of distinct inputs through functions that a bounded cache could sit behind: the run then holds
+	// more distinct keys than such a cache has slots, and the late replay asks for the early ones again
+	regExtra("C12", func(r *Runner) {
+		for i := 0; i < r.N(300, 1500); i++ {
+			d := r.bytesN([]int{33, 65}[i%2])
+			r.Do("tpl.makefrom", []string{[]string{"p2pkh", "p2wpkh"}[(i/2)%2], hx(d)}, "tpl.makefrom/flood of distinct keys", true, "")
+		}
+	})
+	regExtra("C04", func(r *Runner) {
+		for i := 0; i < r.N(1100, 3000); i++ {
+			r.Do("pub.c", []string{hx(r.scalar(1000 + i))}, "pub/flood of distinct keys", true, "")
+		}
+	})
+	regExtra("C05", func(r *Runner) {
+		// honest Schnorr signatures under 40 distinct keys, each verified twice, round after round
+		type trip struct{ pub, m, sig []byte }
+		var ts []trip
+		for i := 0; i < 40; i++ {
+			k := r.scalar(2000 + i)
+			m := r.bytesN(32)
+			ts = append(ts, trip{ecc.GetPublicKeySchnorr(k), m, ecc.SignSchnorr(k, m, r.bytesN(32))})
+		}
+		for round := 0; round < 3; round++ {
+			for _, t := range ts {
+				r.eccSchnorrVerify(t.pub, t.m, t.sig, "schnorr-valid/many keys, round after round", true)
+				if round > 0 {
+					r.eccSchnorrVerify(t.pub, t.m, t.sig, "schnorr-valid/many keys, round after round", true)
+				}
+			}
+		}
+		// and a signature made with the NEXT key's secret over this key's challenge: never valid
+		for i := range ts {
+			j := (i + 1) % len(ts)
+			r.eccSchnorrVerify(ts[i].pub, ts[j].m, ts[j].sig, "schnorr-other-key/many keys", false)
 		}
 	})
 	// C13: tweaks whose OUTPUT key has an x coordinate with a leading zero byte
